@@ -5,7 +5,8 @@ T = alphabets.T
 
 SPEC = {
     'A': ('container', 'inf L', [('water', '10 mL'), ('nacl', '2 mmol'), ('lipase', '1 U')]),
-    'B': ('container', '20 mL', []),
+    # B starts with a trace of an inactive solid preparation that carries the NAME of the enzyme in A (a twin, e1.TWINS)
+    'B': ('container', '20 mL', [('lipase_s', '5 mg')]),
     'P': ('plate', '500 uL', 2, 2),
 }
 CREATED = ('X', 'S', 'F')
@@ -29,7 +30,8 @@ def vocabulary():
         {'op': 'fill_to', 'obj': 'B', 'solvent': 'water', 'q': '5 mL'},
         {'op': 'fill_to', 'obj': 'P', 'solvent': 'water', 'q': '100 uL'},
         {'op': 'fill_to', 'obj': ['P', "(1, slice(None))"], 'solvent': 'water', 'q': '100 uL'},
-        {'op': 'new_container', 'name': 'X', 'max': '5 mL', 'contents': [['dmso', '1 mL']]},
+        # (the same substance in two portions: a container adds them up)
+        {'op': 'new_container', 'name': 'X', 'max': '5 mL', 'contents': [['dmso', '0.6 mL'], ['dmso', '0.4 mL']]},
         {'op': 'create_solution', 'solute': 'nacl', 'solvent': 'water', 'name': 'S',
          'kw': {'concentration': '0.5 M', 'total_quantity': '2 mL'}},
         {'op': 'create_solution', 'solute': 'nacl', 'solvent': 'A', 'name': 'S',
@@ -104,10 +106,16 @@ def add_step(pp, subs, world, handles, recipe, act):
         base = handles.get(n, world.get(n))
         if isinstance(r, str):
             return base
+        # a slice is taken ONCE per recipe and the same object is handed to every step that mentions it (row = plate['A'];
+        # recipe.transfer(a, row, ..); recipe.transfer(row, b, ..)): each step must still see the plate as it is by then
+        key = ('slice', repr(r))
+        if key in handles:
+            return handles[key]
         o = base[e1.selectors.ev(r[1])]
         for sub in r[2:]:
             _ = (o.shape, o.size)
             o = o[e1.selectors.ev(sub)]
+        handles[key] = o
         return o
     op = act['op']
     if op == 'transfer':
@@ -199,7 +207,7 @@ def bake(pp, vidx, program, layout=None, premature=False, declare='one-by-one'):
         # steps have no effect before bake: originals unchanged, placeholders empty
         if e1.exact_world(world) != fp0:
             out['pre'] = 'adding steps modified a declared object before bake'
-        elif any(h.contents for h in handles.values()):
+        elif any(h.contents for k, h in handles.items() if isinstance(k, str)):
             out['pre'] = 'a placeholder returned by create_* is not empty before bake'
         out['phase'] = 'bake'
         res = recipe.bake()
